@@ -873,6 +873,73 @@ class JoinFinishMethod(JoinBeginMethod):
                 + self.block(self.fdef.body, self.default_end))
 
 
+class JoinCommonMethod(JoinBeginMethod):
+    """`Join.applied_common_columns(lhs, rhs)` (T-f), over the operands' column sets: the automatic common columns are
+    the KEY columns both operands have (`{tag for tag in lhs.columns & rhs.columns if tag.is_key}`), capped by
+    `max_columns` when that is given, and must contain `min_columns`."""
+
+    DICT = {
+        "lhs.columns": ("lcols", "cols"), "rhs.columns": ("rcols", "cols"),
+        "self.min_columns": ("j.minCols", "cols"),
+    }
+
+    def __init__(self, cls):
+        super().__init__(cls)
+        self.name = "applied_common_columns"
+        f = inspect.getattr_static(cls, "applied_common_columns")
+        src = textwrap.dedent(inspect.getsource(f))
+        self.fdef = next(n for n in ast.walk(ast.parse(src)) if isinstance(n, ast.FunctionDef))
+
+    def block(self, stmts, rest_k):
+        if stmts:
+            s, tail = stmts[0], stmts[1:]
+            k = lambda: self.block(tail, rest_k)   # noqa: E731
+            if isinstance(s, ast.Assign) and isinstance(s.targets[0], ast.Name) and isinstance(s.value, ast.SetComp):
+                c = s.value
+                g = c.generators[0] if len(c.generators) == 1 else None
+                if (g is not None and isinstance(c.elt, ast.Name) and isinstance(g.target, ast.Name)
+                        and c.elt.id == g.target.id and len(g.ifs) == 1
+                        and ast.unparse(g.ifs[0]) == f"{g.target.id}.is_key" and isinstance(g.iter, ast.BinOp)
+                        and isinstance(g.iter.op, ast.BitAnd)):
+                    a, at = self.expr(g.iter.left)
+                    b, bt = self.expr(g.iter.right)
+                    if at == "cols" and bt == "cols":
+                        self.counter += 1
+                        v = f"{s.targets[0].id}_{self.counter}"
+                        self.env[s.targets[0].id] = (v, "cols")
+                        return f"(let {v} : Cols := Cols.keys (Cols.inter {a} {b}); {k()})"
+                raise Untranslatable("set comprehension")
+            if (isinstance(s, ast.If) and ast.unparse(s.test) == "self.max_columns is not None" and not s.orelse
+                    and len(s.body) == 1 and isinstance(s.body[0], ast.AugAssign)
+                    and isinstance(s.body[0].op, ast.BitAnd) and isinstance(s.body[0].target, ast.Name)
+                    and ast.unparse(s.body[0].value) == "self.max_columns"):
+                name = s.body[0].target.id
+                cur = self.env.get(name)
+                if cur is None or cur[1] != "cols":
+                    raise Untranslatable("capped variable is not a column set")
+                self.counter += 1
+                v = f"{name}_{self.counter}"
+                self.env[name] = (v, "cols")
+                return (f"(let {v} : Cols := (match j.maxCols with | some m => Cols.inter {cur[0]} m "
+                        f"| none => {cur[0]}); {k()})")
+        return super().block(stmts, rest_k)
+
+    def ret(self, e):
+        src = ast.unparse(e)
+        if isinstance(e, ast.Call) and ast.unparse(e.func) == "frozenset" and len(e.args) == 1:
+            x, t = self.expr(e.args[0])
+            if t == "cols":
+                return f"(Except.ok {x})"
+        x, t = self.expr(e)
+        if t == "cols":
+            return f"(Except.ok {x})"
+        raise Untranslatable(f"return {src[:60]}")
+
+    def lean(self):
+        return ("def Join_applied_common_columns (j : JoinOp) (lcols rcols : Cols) : Except Err Cols :=\n  "
+                + self.block(self.fdef.body, self.default_end))
+
+
 REL_CTORS = {
     "LeafRelation": ".leaf _ _ _ _ _ _ _ _",
     "Materialization": ".mat _ _ {t}",
@@ -1033,6 +1100,9 @@ def gen_rel_ops(problems: list[str]) -> str:
         ("PartialJoin._begin_apply", lambda: PJoinBeginMethod(PartialJoin),
          "def PartialJoin_begin_apply (fuel : Nat) (p : PJoin) (target : Rel) (pref : Option Engine) : "
          "Except Err (PJoin × Engine) :=\n  Except.error Err.fuel"),
+        ("Join.applied_common_columns", lambda: JoinCommonMethod(r.Join),
+         "def Join_applied_common_columns (j : JoinOp) (lcols rcols : Cols) : Except Err Cols :=\n"
+         "  Except.error Err.fuel"),
         ("Join._begin_apply", lambda: JoinBeginMethod(r.Join),
          "def Join_begin_apply (j : JoinOp) (lhs rhs : Rel) : Except Err BOp :=\n  Except.error Err.fuel"),
         ("Join._finish_apply", lambda: JoinFinishMethod(r.Join),
